@@ -1,6 +1,6 @@
 SPECIFICATION Spec
-CONSTANTS MinN = 1  MaxN = 4  NameIdx = {1, 2, 3, 5}  MaxKids = 3  MaxEdges = 6  MaxIso = 0  MaxExtraRoots = 0
-          RootPerm = FALSE  Topo = FALSE  Gen = FALSE
+CONSTANTS MinN = 4  MaxN = 4  NameIdx = {1, 2, 3, 5}  MaxKids = 3  MaxEdges = 3  MaxIso = 0  MaxExtraRoots = 0
+          RootPerm = FALSE  Topo = TRUE  Gen = FALSE
 VIEW view
 INVARIANT TypeOK
 INVARIANT ChildsComplete
